@@ -202,11 +202,20 @@ class ValGen:
             return c["serialize"].rsplit(".", 1)[-1]
         return None
 
-    def field_py(self, name):
+    def field_py_map(self, t):
+        """{GraphQL field: Python field} of an input type as the generator assigns them: process_name, then "_"
+        appended while the name is already taken by an earlier field (/repo bec4417)."""
         from ariadne_codegen.utils import process_name
 
-        return process_name(name, convert_to_snake_case=self.snake, trim_leading_underscore=True,
-                            handle_pydantic_resrved_field_names=True)
+        used, out = set(), {}
+        for name in t.fields:
+            p = process_name(name, convert_to_snake_case=self.snake, trim_leading_underscore=True,
+                             handle_pydantic_resrved_field_names=True)
+            while p in used:
+                p += "_"
+            used.add(p)
+            out[name] = p
+        return out
 
     def note(self, k):
         self.stats[k] = self.stats.get(k, 0) + 1
@@ -248,6 +257,7 @@ class ValGen:
         if isinstance(t, GraphQLInputObjectType):
             kw_sx, kw_enc, intent = [], {}, {}
             by_alias = r.random() < 0.5
+            pymap = self.field_py_map(t)
             for fname, f in t.fields.items():
                 required = isinstance(f.type, GraphQLNonNull) and f.default_value is Undefined
                 if not required:
@@ -256,9 +266,9 @@ class ValGen:
                     if mode == "full" and depth > 1 and isinstance(get_named(f.type), GraphQLInputObjectType):
                         continue
                 fv = self.value(f.type, mode, depth + 1)
-                py = self.field_py(fname)
+                py = pymap[fname]
                 kw_sx.append([py, fv.sx])
-                kw_enc[fname if by_alias else py] = fv.enc
+                kw_enc[fname if by_alias else "$name:" + fname] = fv.enc     # by alias / by the class's Python name
                 intent[fname] = fv.intent
             self.note("model:by_alias" if by_alias else "model:by_name")
             route = "$model"
